@@ -191,6 +191,50 @@ Section MinP.
       if nltb b1 m then b1 else m.
 End MinP.
 
+(* ---- NewtonSolver.globalized_newton_step(residual, linear_op, x, etak, t, maxLinesearchIters) ----
+   Oracles (arbitrary, each sees its call site): gn_res site y = residual(y) (site 0: at x; site k+1: at x+s after k cutbacks),
+   gn_newton = newton_step(...) -> (s, exitcode != 0)  [GMRES],  gn_slope count s = grad(energy)(0.0) for the current s  [jax].
+   NOT oracles: the residual energy 0.5*norm(r)**2, the sufficient-decrease test, the sign test on the slope, compute_min_p on
+   [0.01, 0.5], the cutback s *= theta and the forcing-term update etak = 1 - theta*(1 - etak).  None = the function returned 0.0. *)
+Section GNewton.
+  Context {T : Type} {NT : Num T}.
+  Record gn_oracles := {
+    gn_res : nat -> list T -> list T;
+    gn_newton : list T * bool;
+    gn_slope : nat -> list T -> T }.
+  Variable orc : gn_oracles.
+  Definition renergy (r : list T) : T := nmul nhalf (nmul (norm2 r) (norm2 r)).
+  Definition c_001 : T := nconst (1 # 100) (5764607523034235%Z, (-59)%Z).
+  Definition c_05 : T := nhalf.
+  Inductive gn_event :=
+  | GNTry (count : nat) (rEnergyN minImprove : T) (accepted : bool)
+  | GNCut (count : nat) (slope theta etak : T)
+  | GNUphill (count : nat) (slope : T).
+  Fixpoint gn_loop (fuel count : nat) (x s : list T) (etak t rE0 rEN : T) : option (list T) * list gn_event :=
+    match fuel with
+    | O => (None, [])
+    | S f =>
+        let minImprove := nsub nunit (nmul t (nsub nunit etak)) in
+        if nltb rEN (nmul minImprove rE0) then (Some s, [GNTry count rEN minImprove true])
+        else
+          let d := gn_slope orc count s in
+          if nleb nzero d then (None, [GNTry count rEN minImprove false; GNUphill count d])
+          else
+            let theta := compute_min_p rE0 rEN d c_001 c_05 in
+            let s' := vscale theta s in
+            let etak' := nsub nunit (nmul theta (nsub nunit etak)) in
+            let rEN' := renergy (gn_res orc (S (S count)) (vadd x s')) in
+            let '(r, ev) := gn_loop f (S count) x s' etak' t rE0 rEN' in
+            (r, GNTry count rEN minImprove false :: GNCut count d theta etak' :: ev)
+    end.
+  Definition globalized_newton_step (x : list T) (etak t : T) (maxLs : nat) : option (list T) * list gn_event :=
+    let rE0 := renergy (gn_res orc 0 x) in
+    let '(s, failed) := gn_newton orc in
+    if failed then (None, [])
+    else gn_loop maxLs 0 x s etak t rE0 (renergy (gn_res orc 1 (vadd x s))).
+End GNewton.
+Arguments gn_event T : clear implicits.
+
 (* ---- exchange with the harness (T := float) ---- *)
 From Coq Require Import Floats.PrimFloat.
 Definition zn (n : nat) : Z := Z.of_nat n.
@@ -227,3 +271,15 @@ Definition scripted (subs : list ((nat * phase) * (list float * bool)))
      constraint := fun it ph _ => lookup [] (it, ph) cons;
      gradAL := fun it ph _ _ _ => lookup [] (it, ph) grads;
      lin_update := fun it _ _ _ => lookup ([], [], true) (it, Sub) lins |}.
+
+(* globalized_newton_step: scripted oracles (residual values by call site) and encoding of the result *)
+Definition gn_scripted (res : list (list float)) (newton : list float * bool) (slopes : list float) : @gn_oracles float :=
+  {| gn_res := fun site _ => nth site res []; gn_newton := newton; gn_slope := fun count _ => nth count slopes PrimFloat.zero |}.
+Definition enc_gn_event (e : gn_event float) : list Z :=
+  match e with
+  | GNTry c rn mi acc => [1%Z; zn c] ++ fenc rn ++ fenc mi ++ [bz acc]
+  | GNCut c d th ek => [2%Z; zn c] ++ fenc d ++ fenc th ++ fenc ek
+  | GNUphill c d => [3%Z; zn c] ++ fenc d
+  end.
+Definition enc_gn (r : option (list float) * list (gn_event float)) : list Z :=
+  flat_map enc_gn_event (snd r) ++ match fst r with Some s => [7%Z] ++ fencs s | None => [8%Z] end.
